@@ -114,6 +114,7 @@ Inductive event :=
 | EVData (f : fid) (off len : Z) (content : list record)   (* write of one (compressed) block *)
 | EVIndex (f : fid) (slot idx off len : Z)                 (* write of {Index, Offset, Len} *)
 | EAck (i : nat)                                (* the workload's marker: request i returned *)
+| EFileDel (f : fid)                            (* unlink of a year file (catalog.RemoveTimeBucket = os.RemoveAll) *)
 | EOther.                                       (* a recorded call the model never emits *)
 
 (* ------------------------------------------------------------------ images *)
@@ -170,6 +171,7 @@ Definition apply_event (im : img) (e : event) : img :=
   | EWalApp w r => upd_wal w (fun wf => {| wf_status := wf_status wf; wf_recs := wf_recs wf ++ [r] |}) im
   | EWalTrunc w => upd_wal w (fun _ => {| wf_status := None; wf_recs := [] |}) im
   | EWalUnlink w => {| i_wals := aremove w (i_wals im); i_aside := i_aside im; i_files := i_files im |}
+  | EFileDel f => {| i_wals := i_wals im; i_aside := i_aside im; i_files := aremove f (i_files im) |}
   | EWalRename w =>
       {| i_wals := aremove w (i_wals im);
          i_aside := match alookup w (i_wals im) with Some wf => i_aside im ++ [(w, wf)] | None => i_aside im end;
@@ -367,6 +369,11 @@ Section WithClen.
   Definition is_cat (e : event) : bool :=
     match e with ECat | EFileNew _ | EFileHdr _ _ | ECreate _ _ _ => true | _ => false end.
 
+  (** what may precede a flush in a recorded run: the catalog's calls, and the unlinks of
+      catalog.RemoveTimeBucket ([EFileDel]; outside the guarded theorems: [step_wf] wants [is_cat]) *)
+  Definition is_pre (e : event) : bool :=
+    is_cat e || match e with EFileDel _ => true | _ => false end.
+
   Definition with_queue (st : sstate) (q : list cmd) : sstate :=
     {| s_tgid := s_tgid st; s_last := s_last st; s_queue := q; s_wal := s_wal st; s_owner := s_owner st |}.
   Definition with_last (st : sstate) (l : Z) : sstate :=
@@ -375,13 +382,13 @@ Section WithClen.
   Definition exec_sev (im : img) (st : sstate) (s : sev) : Res (list event * sstate) :=
     match s with
     | SEnqueue pre bs =>
-        if forallb is_cat pre
+        if forallb is_pre pre
         then Ok (pre, with_queue st (s_queue st ++ flat_map write_records bs))
         else Rejected
     | SFlush ord => flush im st ord
     | SAck i => Ok ([EAck i], st)
     | SWrite pre bs ord i =>
-        if forallb is_cat pre then
+        if forallb is_pre pre then
           let st1 := with_queue st (s_queue st ++ flat_map write_records bs) in
           match flush (apply_events im pre) st1 ord with
           | Ok (evs, st2) => Ok (pre ++ evs ++ [EAck i], st2)
